@@ -162,6 +162,32 @@ def _check_obsfcst(cases):
     return n, divs
 
 
+def _check_fss_table(cases):
+    """the table behind the fss diagram along lead time (Diagrams!FssSeries): one row per temporal scale, in ascending order, whose leading field is
+    the scale and whose numbers are the scores of THAT scale, one column per input (after seed C12-i)"""
+    n = 0
+    divs = []
+    for c, kind in cases:
+        paths, _ = dsreplay.write_files(c, "text", tag="fs")
+        names = [os.path.basename(p) for p in paths]
+        xs = c["series"][0]["x"]
+        from harness import expr
+        want = [{"desc": {"kind": "number", "value": expr.ev(xs[k])}, "scores": [s["y"][k] for s in c["series"]]} for k in range(len(xs))]
+        argv = paths + list(c["argv"]) + ["-type", kind]
+        rep = {"kind": "table", "argv": argv, "files": [open(p).read() for p in paths], "expected": want, "type": kind, "axis": "leadtime"}
+        status, text = run_verif(argv)
+        n += 1
+        if status != "ok":
+            divs.append((status.split(" ")[0] if status.startswith("exception") else "table:" + status, "%s -> %s" % (" ".join(argv[2:]), status), rep))
+            continue
+        header, rows = table.parse(text, kind)
+        rep["observed"] = text
+        # (the fractions of this score are single-precision numbers: the printed number is the rounded COMPUTED score, 2e-6 from the exact one)
+        for msg in table.compare(want, names, header, rows, 6 if kind == "csv" else 4, "leadtime", rtol=2e-6)[:3]:
+            divs.append(("table:fss-scales", "%s: %s" % (" ".join(argv[2:]), msg), rep))
+    return n, divs
+
+
 def _join_names(header, cols):
     """the text format separates cells by blanks and so does a name like `file 10%`: re-join the header cells that spell the expected names, in order"""
     want = [w for c in cols for w in c.split()]
@@ -215,6 +241,17 @@ def run(ctx):
         for site, detail, rep in divs:
             ctx.diverge(site, rep, detail=detail)
     ctx.traces += len(ocases)
+    res4 = tlc.run("MC_Diagrams", "MC_Diagrams_C12", tag=ctx.pid + "_fss", timeout_s=1500)
+    ctx.add_tlc("MC_Diagrams/C12 (table of the fss diagram)", res4)
+    fcases = [(c, kind) for c in res4.emitted if c["diagram"] == "fss" for kind in ("csv", "text")]
+    if ctx.tier == "quick":
+        fcases = rng.sample(fcases, min(len(fcases), 24))
+    for n, divs in par.pmap(_check_fss_table, [fcases[i:i + 4] for i in range(0, len(fcases), 4)], chunk=1):
+        ctx.evaluations += n
+        for site, detail, rep in divs:
+            ctx.diverge(site, rep, detail=detail)
+    ctx.traces += len(fcases)
+    ctx.extra["fss_tables"] = len(fcases)
     ctx.traces += sum(len(c) for _, c in jobs)
     for o, _ in jobs:
         if len(o["table"]) > 1 or "undef" in str(o["table"]):
